@@ -557,6 +557,8 @@ def run(chk: framework.Check):
     # implementation-only extended stream (unions by tag / unique fields, NamedTuples, registry hooks)
     from harness import ext
     ext.run_c06(chk, 150 if chk.tier == "quick" else 1500)
+    # implementation-only: non-identity attrs field converters over containers of / wrappers around classes without a hook
+    ext.run_c06_fieldconv(chk, 200 if chk.tier == "quick" else 2000)
     # implementation-only: Literal[...] over members of mix-in enums, position-wise equal literals in one process
     ext.run_enum_literals(chk, 25 if chk.tier == "quick" else 250, "C06")
     drv.close()
